@@ -32,14 +32,14 @@ _DECL = """
 (declare-datatypes ((PyVal 0)) ((
   (vabsent)
   (vnone)
-  (vbool (b Bool))
-  (vint (i Int))
-  (vfloat (r Real))
-  (vstr (s String))
-  (vbytes (y String))
-  (vlist (l (Seq PyVal)))
-  (vdict (d Int))
-  (vobj (o Int))
+  (vbool (acc_b Bool))
+  (vint (acc_i Int))
+  (vfloat (acc_r Real))
+  (vstr (acc_s String))
+  (vbytes (acc_y String))
+  (vlist (acc_l (Seq PyVal)))
+  (vdict (acc_d Int))
+  (vobj (acc_o Int))
 )))
 (declare-const __probe PyVal)
 (assert (= __probe vnone))
@@ -58,6 +58,10 @@ for _i in range(PyVal.num_constructors()):
     for _j in range(_c.arity()):
         _a = PyVal.accessor(_i, _j)
         A[_a.name()] = _a
+
+for _k in list(A.keys()):
+    if _k.startswith("acc_"):
+        A[_k[4:]] = A[_k]      # short aliases used throughout the engine (the SMT names avoid clashes with input names)
 
 TAGS = ["vabsent", "vnone", "vbool", "vint", "vfloat", "vstr", "vbytes", "vlist", "vdict", "vobj"]
 
@@ -340,18 +344,44 @@ def tid(t):
 Nth = z3.Function("Nth", SeqPV, IntSort, PyVal)     # element of a list at an in-range index (trigger-friendly form of seq.nth)
 
 
+_BAD_PATTERN_OPS = None
+
+
+def _valid_pattern(p):
+    global _BAD_PATTERN_OPS
+    if _BAD_PATTERN_OPS is None:
+        _BAD_PATTERN_OPS = {z3.Z3_OP_ITE, z3.Z3_OP_AND, z3.Z3_OP_OR, z3.Z3_OP_NOT, z3.Z3_OP_EQ, z3.Z3_OP_IMPLIES,
+                            z3.Z3_OP_DISTINCT, z3.Z3_OP_LE, z3.Z3_OP_GE, z3.Z3_OP_LT, z3.Z3_OP_GT, z3.Z3_OP_TRUE, z3.Z3_OP_FALSE}
+    stack = [p]
+    top = True
+    while stack:
+        t = stack.pop()
+        if not z3.is_app(t):
+            continue
+        k = t.decl().kind()
+        if k in _BAD_PATTERN_OPS:
+            return False
+        if top and t.num_args() == 0:
+            return False
+        top = False
+        for i in range(t.num_args()):
+            stack.append(t.arg(i))
+    return True
+
+
 def forall(vars_, body, patterns=()):
     """ForAll with explicit triggers when they are valid patterns, inferred triggers otherwise."""
     pats = []
     for p in patterns:
         if p is None:
             continue
-        # each alternative trigger must be a valid pattern on its own (contain the bound variables, no ite/connectives)
-        try:
-            z3.ForAll(vars_, body, patterns=[p])
+        # each alternative trigger must be a valid pattern on its own (an uninterpreted/array/seq application
+        # without ite or connectives); checked syntactically so that z3 prints no warnings
+        if _valid_pattern(p):
             pats.append(p)
-        except z3.Z3Exception:
-            continue
     if pats:
-        return z3.ForAll(vars_, body, patterns=pats)
+        try:
+            return z3.ForAll(vars_, body, patterns=pats)
+        except z3.Z3Exception:
+            pass
     return z3.ForAll(vars_, body)
